@@ -182,6 +182,37 @@ class Rect2D(Model):
         return x
 
 
+class Rect3D(Model):
+    """Three parameters, names not sorted, every parameter with its own bounds (one not symmetric)."""
+
+    def __init__(self):
+        self.names = ["m", "a", "q"]
+        self.bounds = {"m": [-2.0, 2.0], "a": [0.0, 10.0], "q": [-1.0, 0.5]}
+        self._logv = float(np.log(4.0 * 10.0 * 1.5))
+
+    def log_prior(self, x):
+        with np.errstate(divide="ignore"):
+            lp = np.log(self.in_bounds(x).astype(float))
+        return lp - self._logv
+
+    def log_likelihood(self, x):
+        return -0.5 * (((x["m"] - 1.5) / 0.6) ** 2 + ((x["a"] - 1.0) / 1.5) ** 2 + ((x["q"] + 0.2) / 0.4) ** 2)
+
+    def to_unit_hypercube(self, x):
+        x = x.copy()
+        for n in self.names:
+            lo, hi = self.bounds[n]
+            x[n] = (x[n] - lo) / (hi - lo)
+        return x
+
+    def from_unit_hypercube(self, x):
+        x = x.copy()
+        for n in self.names:
+            lo, hi = self.bounds[n]
+            x[n] = (hi - lo) * x[n] + lo
+        return x
+
+
 class Disc2D(_Box):
     """Uniform prior on a DISC inside the box: log_prior = -inf in the corners although the point is inside
     the bounds (candidates pass the hypercube / bounds check and are rejected by the prior)."""
@@ -299,6 +330,7 @@ MODELS = {
     "offvlow2": OffsetVeryLow2D,
     "flat2": FlatTop2D,
     "rect2": Rect2D,
+    "rect3": Rect3D,
     "disc2": Disc2D,
     "offhigh2": OffsetHigh2D,
     "gauss3": Gaussian3D,
